@@ -62,6 +62,7 @@ var extremeInts = []int64{math.MinInt64, math.MinInt64 + 1, math.MinInt64 + 2, m
 func propC16(c *Ctx) {
 	r := c.rep
 	r.Rule = "Language(i).String() for every i in a window around 0 (quick: -3000..3000, thorough: -70000..70000), the ten declared constants by name, and the int extremes; compared with the specification (declared identifier for the ten supported languages, \"Language(N)\" otherwise) and with the model of the generated code. Non-trivial = distinct values."
+	c.newAPIProbes() // String() after a call of each NEW exported function (none on the unchanged tree)
 	w := int64(3000)
 	if !c.quick {
 		w = 70000
@@ -205,6 +206,22 @@ func propC14(c *Ctx) {
 		// MnemonicToSeed: only "returns normally" matters here (its value is C04's business)
 		r.count("hostile-string:seed")
 		bad("hostile-string", fmt.Sprintf("seed <%d bytes %.40q>", len(s), s), implSeed(s, s[:min(len(s), 100)]))
+	}
+	// well-formed sentences whose token count depends on WHEN the string is normalised (compatibility spaces as
+	// separators, surplus words attached by one): a count taken before NFKD and used after it indexes or
+	// shifts out of range
+	for li := range langVals {
+		if c.quick && li%3 != int(r.Seed%3) {
+			continue
+		}
+		l := int64(langVals[li])
+		words := c.canonWords(l)
+		for _, n := range entSizes {
+			toks := strings.Split(c.specSentence(l, c.randBytes(n)), sepOf(li))
+			before := len(r.Violations)
+			c.separatorVariantDefects(li, n, toks, words)
+			_ = before
+		}
 	}
 	r.sample("chk -1 'abandon ... about' -> err other (word not found); lstr -9223372036854775808 -> Language(-9223372036854775808)")
 }
